@@ -308,6 +308,11 @@ def run(F, R, tier):
         R.ob("C13-b", "the inserted value is the serialised SpecifierWithRange", any((x.get("fn") or "").endswith("serde_json::to_value") for x in walk(val)), "value = %s" % expr_text(val), where(ins[0]))
     # Comment helper fields == v1 keys read
     cm = [p for p in F.ast_adts if p == "analysis::Comment"]
+    adt_ = [b for b in F.bodies if b["path"].endswith("module_graph_1_to_2::analyze_deno_types")]
+    if R.ob("C13-b", "v1 pragma reader found", len(adt_) == 1, "analyze_deno_types moved", up["file"]):
+        pick = [n for n in adt_[0]["_nodes"] if n.get("k") == "MethodCall" and n["name"] in ("last", "first", "get", "iter", "nth") and peel_value(n["recv"]).get("lid") == adt_[0]["body"]["params"][0].get("lid")]
+        R.ob("C13-b", "a v1 `@deno-types` pragma is read from the comment directly above the import", len(pick) == 1 and pick[0]["name"] == "last",
+             "analyze_deno_types picks `%s` of the leading comments: only the last leading comment is adjacent to the import, so an unrelated earlier comment would supply (or hide) the types specifier and the upgraded module info differs from a fresh analysis" % (expr_text(pick[0])[:40] if pick else "?"), adt_[0]["file"])
     if R.ob("C13-b", "v1 Comment helper found", len(cm) == 1, "shape changed", up["file"]):
         names = field_names(F, cm[0])
         R.ob("C13-b", "v1 leading comments are read as {text, range}", sorted(names) == ["range", "text"], "Comment keys are %s" % names, up["file"])
@@ -323,6 +328,21 @@ def run(F, R, tier):
     R.ob("C13-b", "moduleGraph1 manifests go through the upgrade", any(callee_matches(n, ["analysis::module_graph_1_to_2"]) for n in mi["_nodes"]), "module_info() no longer upgrades moduleGraph1 entries", mi["file"])
 
     # ---------------- C13-c ------------------------------------------------
+    # the in-flight marker of a load records whether it is an asset load; the manifest
+    # shortcut only serves module loads, so its marker says "module"
+    pend_lits = [n for n in F.all_nodes() if n["k"] == "Struct" and (n.get("variant") or "").endswith("ModuleSlot::Pending") and not n["_top"].get("derived") and "::test" not in n["_top"]["path"]]
+    R.floor("C13-c in-flight markers", len(pend_lits), 2)
+    for n in pend_lits:
+        v = peel([f_["e"] for f_ in n["fields"] if f_["name"] == "is_asset"][0])
+        if n["_top"]["path"].endswith("load_jsr_subpath"):
+            ok = v.get("k") == "Lit" and v.get("v") is False
+            why = "the manifest shortcut marks its in-flight entry `is_asset: %s`" % expr_text(v)
+        else:
+            ok = v.get("res") == "local" and tyc(F, v, "bool")
+            why = "in-flight marker uses `%s` instead of the request's is_asset" % expr_text(v)
+        R.ob("C13-c", "the in-flight marker of %s says whether the load is an asset load" % n["_top"]["path"].split("::")[-1], ok,
+             why + ": a later code import of the same specifier is then treated as (not) needing a reload, so the graph built through the manifest shortcut differs from the one built from loaded sources", where(n))
+
     ls = F.body("graph::Builder::load_jsr_subpath")
     lits = [n for n in ls["_nodes"] if n["k"] == "Struct" and n.get("adt") == "graph::ParseModuleAndSourceInfoOptions"]
     if R.ob("C13-c", "two parse sites in the manifest shortcut", len(lits) == 2, "found %d ParseModuleAndSourceInfoOptions literals" % len(lits), ls["file"]):
